@@ -296,12 +296,12 @@ def sfcf_files(p, rep):
     elif layout == "c":
         for cfg in rp["cfgs"]:
             recs = [sfcf_block(spec, model[cfg][bi]).encode() for bi, spec in enumerate(p["blocks"])]
-            images.append(FileImage("%s/%s_n%d" % (rp["dir"], rp["dir"], cfg), (SFCF_RUN % "/unity").encode(), recs, kind="text"))
+            images.append(FileImage("%s/%s_%s%d" % (rp["dir"], rp["dir"], p.get("cfgsep", "n"), cfg), (SFCF_RUN % "/unity").encode(), recs, kind="text"))
     else:
         for nm in names:
             recs = []
             for cfg in rp["cfgs"]:
-                s = SFCF_RUN % ("/%s_n%d" % (rp["dir"], cfg))
+                s = SFCF_RUN % ("/%s_%s%d" % (rp["dir"], p.get("cfgsep", "n"), cfg))
                 for bi, spec in enumerate(p["blocks"]):
                     if spec["name"] == nm:
                         s += sfcf_block(spec, model[cfg][bi])
